@@ -510,15 +510,19 @@ def rules(ck, P):
             nd += 1
             rule = "R-ALLOC" if s.kind == "alloc" else "R-ARITH"
             e = dtable.get(s.key)
+            note = ""
             if e is not None:
-                ck.ok(rule, s.key, "reviewed: " + e["reason"], s.loc)
-                continue
+                lapsed = validate_witness(P, e, s) or census.entry_lapsed(e, s)
+                if lapsed is None:
+                    ck.ok(rule, s.key, "reviewed: " + e["reason"], s.loc)
+                    continue
+                note = " (reviewed entry lapsed: %s)" % lapsed
             if s.kind == "alloc":
                 ck.violation(rule, s.key, "allocation `%s` is sized by a length decoded from the input without a dominating bound against the remaining input: "
-                             "a few bytes can request an arbitrarily large allocation (abort)" % s.desc, s.loc)
+                             "a few bytes can request an arbitrarily large allocation (abort)%s" % (s.desc, note), s.loc)
             else:
                 ck.violation(rule, s.key, "`%s` on integers decoded from the input with no dominating bound and no checked/saturating op: overflow panics "
-                             "(overflow-checks on) or wraps into an inconsistent range" % s.desc, s.loc)
+                             "(overflow-checks on) or wraps into an inconsistent range%s" % (s.desc, note), s.loc)
     ck.note("R-ALLOC/R-ARITH: %d decoded-value sites examined" % nd)
 
     # ---- R-REC
